@@ -85,6 +85,7 @@ type FnExec struct {
 	C              *Contract
 	snaps          map[string]cval   // loop snapshots in force (name -> value at the loop head)
 	noAssumeNext   bool              // the next obligation is a recorded finding: check it, do not assume it
+	renames        map[string]string // locals renamed since the contracts were written: current name -> contract name
 	lines          []string          // declarations/definitions/assumptions in order
 	declared       map[string]bool   // heap arrays & misc symbols declared
 	regs           map[ssa.Value]Val // SSA registers
